@@ -20,7 +20,8 @@ ASSUMPTIONS = ['mpmath special functions (besseli, hyp1f1) and numpy slogdet/sol
                'factor is <= 1e6 (otherwise finiteness only)']
 
 STACKS = ((), (2,), (2, 3))
-KAPPAS = (1e-6, 1e-3, 0.1, 1.0, 10.0, 100.0, 500.0)
+KAPPAS = (1e-6, 1e-3, 0.03, 0.1, 0.3, 1.0, 2.0, 4.0, 7.0, 10.0, 12.0, 15.0, 20.0, 30.0, 50.0, 100.0,
+          200.0, 350.0, 500.0)
 CONDS = (1.0, 1e2, 1e4, 1e8)
 
 
@@ -91,7 +92,7 @@ def run_gaussian(key):
             want[idx] = R.diagonal_gaussian_logpdf(ys[idx], means[idx], covs[idx])
         else:
             want[idx] = R.spherical_gaussian_logpdf(ys[idx], means[idx], covs[idx])
-    bad = tol.mismatch(got, want, tol.TIGHT, scale=max(cond, 1.0) if fam == 'full' else 1e3,
+    bad = tol.mismatch(got, want, tol.TIGHT, scale=max(cond * 1e-3, 1.0) if fam == 'full' else 1.0,
                        what=f'{cls.__name__}.log_pdf')
     if bad:
         return viol(bad, got, want)
@@ -118,7 +119,7 @@ def run_cgauss(key):
     want = np.zeros(stack + (4,))
     for idx in np.ndindex(*stack):
         want[idx] = R.complex_gaussian_logpdf(ys[idx], covs[idx])
-    bad = tol.mismatch(got, want, tol.TIGHT, scale=max(cond, 1.0), what='ccsg.log_pdf')
+    bad = tol.mismatch(got, want, tol.TIGHT, scale=max(cond * 1e-3, 1.0), what='ccsg.log_pdf')
     if bad:
         return viol(bad, got, want)
     return ok(outcome=tol.digest(want))
@@ -261,7 +262,7 @@ def run_cacg(key):
     want = np.zeros(stack + (4,))
     for idx in np.ndindex(*stack):
         want[idx], _ = R.cacg_logpdf(ys[idx], Us[idx], lams[idx])
-    bad = tol.mismatch(got, want, tol.TIGHT, scale=max(cond, 1.0), what='cacg.log_pdf')
+    bad = tol.mismatch(got, want, tol.TIGHT, scale=max(cond * 1e-3, 1.0), what='cacg.log_pdf')
     if bad:
         return viol(bad, got, want)
     return ok(outcome=tol.digest(want))
@@ -440,7 +441,7 @@ def subchecks(tier, seed):
 
     def int_cases():
         for mk in ('basis', 'generic'):
-            for k in (1e-3, 1.0, 10.0, 100.0, 500.0):
+            for k in (1e-3, 0.3, 1.0, 3.0, 10.0, 12.0, 15.0, 20.0, 30.0, 60.0, 100.0, 250.0, 500.0):
                 yield ('watson', k, mk, seed)
                 yield ('vmf2', k, mk, seed)
                 yield ('vmf3', k, mk, seed)
